@@ -10,8 +10,8 @@ ID = "C11"
 LEVEL = "exploration"
 STATUSES = ["clean", "modified-unstaged", "modified-staged", "modified-both", "added", "deleted-unstaged", "deleted-staged", "renamed", "untracked"]
 RULE = ("Real git repositories. A (enumerated, both tiers): every status git can report for a file (clean, modified-unstaged, "
-        "modified-staged, modified-both, added, deleted-unstaged, deleted-staged, renamed, untracked) x {pattern file, "
-        "unrelated file} x --allow-dirty on/off x file in the top directory or a sub-directory (72 cases). B (Hypothesis): "
+        "modified-staged, modified-both, added, deleted-unstaged, deleted-staged, renamed, renamed-then-edited, untracked) x {pattern file (named plainly, as ./path or through a glob), "
+        "unrelated file} x --allow-dirty on/off x file in the top directory or a sub-directory (160 cases). B (Hypothesis): "
         "1..4 files (pattern files and unrelated files, sub-directories) with independent statuses, --allow-dirty on/off. "
         "The status text is whatever the real `git status --porcelain` prints. Oracle: expected abort iff (some file has a "
         "tracked change and not --allow-dirty) or (some pattern file has any uncommitted change, untracked included). Abort "
@@ -54,6 +54,11 @@ def apply_status(repo, path, status, is_pattern):
         gitbox.git(repo, "rm", "-q", "--", path)
     elif status == "renamed":
         gitbox.git(repo, "mv", "--", path, path + ".moved")
+    elif status == "renamed-modified":
+        # renamed in the index, then edited in the working tree: porcelain prints "RM old -> new"
+        new = os.path.join(os.path.dirname(path), "renamed_" + os.path.basename(path))
+        gitbox.git(repo, "mv", "--", path, new)
+        projgen.write_file(repo, new, content(OLD, "EDITED") if is_pattern else "edited after rename\n")
 
 
 def run_case(files, allow_dirty):
@@ -61,8 +66,12 @@ def run_case(files, allow_dirty):
     tmp = tempfile.mkdtemp(prefix="c11_")
     try:
         pattern_files = [f["path"] for f in files if f["pattern"]]
+        keys = []
+        for f in files:
+            if f["pattern"] and f.get("key", f["path"]) not in keys:
+                keys.append(f.get("key", f["path"]))
         spec = {"current_version": OLD, "version_pattern": "MAJOR.MINOR.PATCH", "options": {"commit": True, "tag": True, "push": False},
-                "files": [[p, ["version = {version}"]] for p in pattern_files]}
+                "files": [[k, ["version = {version}"]] for k in keys]}
         projgen.write_file(tmp, "bumpver.toml", projgen.toml_config(spec))
         projgen.write_file(tmp, "keep.txt", "keep\n")
         for f in files:
@@ -124,13 +133,20 @@ def run_case(files, allow_dirty):
 
 def matrix(tier):
     out = []
-    for status in STATUSES:
+    for status in STATUSES + ["renamed-modified"]:
         for is_pattern in (True, False):
             for allow in (False, True):
                 for sub in (False, True):
-                    out.append({"files": [{"path": ("src/pkg/" if sub else "") + ("a.txt" if is_pattern else "other.txt"), "pattern": is_pattern, "status": status}] +
-                                         ([] if is_pattern else [{"path": "a.txt", "pattern": True, "status": "clean"}]),
-                                "allow_dirty": allow})
+                    # how the pattern file is named in the config: plainly, as ./path, or through a glob of its directory
+                    for style in (("plain", "dot-slash", "glob") if is_pattern else ("plain",)):
+                        path = ("src/pkg/" if sub else "") + ("a.txt" if is_pattern else "other.txt")
+                        f = {"path": path, "pattern": is_pattern, "status": status}
+                        if style == "dot-slash":
+                            f["key"] = "./" + path
+                        elif style == "glob":
+                            f["key"] = ("src/pkg/" if sub else "") + "*a.txt"  # a.txt and renamed_a.txt, nothing else
+                        out.append({"files": [f] + ([] if is_pattern else [{"path": "a.txt", "pattern": True, "status": "clean"}]),
+                                    "allow_dirty": allow})
     return out
 
 
@@ -146,7 +162,10 @@ def build(d):
     names = d.shuffle(NAMES)[:n]
     files = []
     for i, nm in enumerate(names):
-        files.append({"path": nm, "pattern": d.bool() if i else True, "status": d.choice(STATUSES + ["clean", "clean"])})
+        f = {"path": nm, "pattern": d.bool() if i else True, "status": d.choice(STATUSES + ["renamed-modified", "clean", "clean"])}
+        if f["pattern"] and d.chance(1, 3):
+            f["key"] = os.path.join(os.path.dirname(nm), "*" + os.path.basename(nm)) if d.bool() else "./" + nm
+        files.append(f)
     return {"files": files, "allow_dirty": d.bool()}
 
 
@@ -166,7 +185,7 @@ PARTS = [
 
 MANIFEST = {
     "text": "Real git: the complete matrix of file statuses x {pattern file, unrelated file} x --allow-dirty x directory depth "
-            "(72 cases, both tiers) plus generated compositions of up to four files; abort/proceed is predicted from the "
+            "(160 cases, both tiers) plus generated compositions of up to four files; abort/proceed is predicted from the "
             "property's rule, and tree, index, HEAD, tags and the committed content of pattern files are inspected with git.",
     "note": "Real git 2.39 produces the status text. Plain ASCII file names without blanks. One bump scenario.",
     "technique": "exhaustive enumeration of the status matrix + property-based testing (Hypothesis) on real git repositories; rule-derived oracle",
